@@ -163,8 +163,8 @@ def gen_case(rng, focus, rules, names):
         for f, w in linked.items():
             if f in fs and w not in fs and not (p.break_link and rng.random() < 0.5):
                 fs.append(w)
-        if "log_industry_lr" in pool and not p.break_link:
-            for f in ("log_industry_lr", "earned_premium"):
+        if "log_industry_lr" in linked and not p.break_link:
+            for f in ("log_industry_lr", linked["log_industry_lr"]):
                 if f not in fs:
                     fs.append(f)
         for ps, pe, evals in rows:
@@ -179,7 +179,7 @@ def gen_case(rng, focus, rules, names):
                           or (f in weights_of and not p.break_link)] or fs[:1]
                 vals = {}
                 for f in cf:
-                    k = fkind[f]
+                    k = fkind.get(f, base_kind)
                     n = n_samples
                     if p.mixed:
                         k = rng.choice(["int", "float", "iarr", "farr"])
